@@ -254,6 +254,46 @@ def reload_scenarios(ctx):
     ctx.coverage.setdefault("histories", {})["reload-scenarios"] = {"histories": len(res) - len(infra)}
 
 
+def driver_reply_scenarios(ctx):
+    """what the bus itself sends is subject to the recipient's receive rules like anything else: a configuration whose last matching
+    receive rule for the driver's error replies is a deny (requested replies included) - no error from the bus reaches the caller"""
+    from ..bus import method_call, BUS_PATH
+    from concurrent.futures import ProcessPoolExecutor
+    hello = lambda: method_call(1, BUS, BUS_PATH, BUS, "Hello").marshal()
+    base = [("connect", 0, 0, False), ("send", 0, hello()), ("connect", 1, 0, False), ("send", 1, hello()), ("connect", 2, 1000, False), ("send", 2, hello())]
+    ops = base + [("send", 1, method_call(5, BUS, BUS_PATH, BUS, "GetNameOwner", "s", [b"com.example.Nobody"]).marshal()),
+                  ("send", 1, method_call(6, BUS, BUS_PATH, BUS, "NoSuchMethod").marshal()),
+                  ("send", 1, method_call(7, BUS, BUS_PATH, BUS, "RequestName", "su", [b"not a name", 0]).marshal()),
+                  ("send", 1, method_call(8, ":1.99", "/a", "a.b", "M").marshal()),
+                  ("send", 2, method_call(5, BUS, BUS_PATH, BUS, "GetNameOwner", "s", [b"com.example.Nobody"]).marshal()),
+                  ("send", 1, method_call(9, BUS, BUS_PATH, BUS, "GetId").marshal()),
+                  ("send", 2, method_call(6, ":1.1", "/a", "a.b", "M").marshal())]
+    jobs = []
+    for ctxname, deny in (("default", {"receive_sender": BUS, "receive_type": "error", "receive_requested_reply": "true"}),
+                          ("default", {"receive_type": "error", "receive_requested_reply": "true"}),
+                          ("user:0", {"receive_sender": BUS, "receive_type": "error", "receive_requested_reply": "true"}),
+                          ("mandatory", {"receive_sender": BUS, "receive_requested_reply": "true", "receive_type": "error"}),
+                          ("default", {"receive_sender": BUS, "receive_type": "error"})):
+        rules = [("default", True, {"user": "*"})] + busdiff.SESSION.rules + [(ctxname, False, deny)]
+        jobs.append((rules, ops))
+    with ProcessPoolExecutor(8) as ex:
+        res = list(ex.map(_absent_job, jobs, chunksize=1))
+    infra = [r for r in res if "infra" in r]
+    if len(infra) > 1:
+        raise InfraError("driver-reply scenarios failed: " + infra[0]["infra"][:500])
+    bad = [r for r in res if "infra" not in r and (r["diff"] is not None or r["died"])]
+    for r in bad[:3]:
+        d = r["diff"] or {}
+        ctx.violate("receive rules and what the bus itself sends: the daemon delivers (or withholds) a driver-made reply against the documented evaluation of "
+                    "the recipient's receive rules: step %s %s: daemon %s, rules say %s" % (d.get("step"), (d.get("op") or "")[:60], [x[:80] for x in d.get("impl", [])][:2],
+                                                                                         [x[:80] for x in d.get("model", [])][:2]),
+                    {"kind": "bus-history", "label": "driver-reply-scenarios", "seed": 0, "policy": r["rules"], "limits": None, "extra": "", "ops": r["ops"],
+                     "diff": r["diff"]}, failing_input=d.get("kind") == "delivery" or bool(r["died"]))
+    ctx.oblige("correspondence (driver-reply scenarios): %d configurations that deny receiving the bus's own error replies" % (len(res) - len(infra)),
+               "correspondence", not bad)
+    ctx.coverage.setdefault("histories", {})["driver-reply-scenarios"] = {"histories": len(res) - len(infra)}
+
+
 def f16_scenario(ctx):
     """the recorded departure F16 on the real daemon: <deny send_path=...> also hits messages that have no path"""
     pol = busdiff.Policy([("default", True, {"user": "*"})] + busdiff.SESSION.rules +
@@ -309,6 +349,7 @@ def run(ctx):
     ctx.coverage["evaluations"] = len(good) * L
     absent_field_scenarios(ctx)
     reload_scenarios(ctx)
+    driver_reply_scenarios(ctx)
     ctx.coverage["histories"]["generated-policy"]["histories_with_a_reload"] = sum(1 for r in good if r["stats"].get("reload"))
     ctx.coverage["histories"]["generated-policy"]["histories_with_an_eavesdropper_owning_nothing"] = sum(1 for r in good if r["stats"].get("eavesdropper"))
     diff, got_reply, refused = f16_scenario(ctx)
